@@ -1300,6 +1300,18 @@ class Interp:
             except IndexError:
                 raise RaiseEx('IndexError', 'string index out of range')
             return K(c) if c != '?' else Sym('bitchar')
+        if isinstance(v, PBits) and isinstance(i, K) and isinstance(i.v, int) and not isinstance(i.v, bool) and v.view == 'bytes':
+            nb = len(v.pat) // 8
+            k = i.v + nb if i.v < 0 else i.v
+            if not 0 <= k < nb:
+                raise RaiseEx('IndexError', 'index out of range')
+            b8 = v.pat[8 * k: 8 * k + 8]
+            if '?' not in b8:
+                return K(int(b8, 2))            # a byte whose bits are all known (a constructor tag that was peeked at)
+            owner = getattr(v, 'owner', None)
+            if owner is not None:
+                raise Fail('a byte of a peeked value whose bits are not determined by the constructor tags')
+            return self.models.ByteOf(self.models.to_ba(self, PBits(b8, 'bits')))
         return Term('item', v, i)
 
     def ev_Attribute(self, n, fr):
